@@ -180,6 +180,8 @@ def probe_ast(cat, ast, sql, deep=True, counterfactual=True):
             if r['kind'] == 'table' and r['db'] in sp['integrations']:
                 cut = r['rest'][1:] if len(r['rest']) > 1 and r['rest'][0].lower() == r['db'] else r['rest']
                 if (r['db'], r['rest']) not in fetched and (r['db'], cut) not in fetched:
+                    if len(r['parts']) > 1 and r['rest'] and r['rest'][-1] in ctes and sp['dns'] == r['db']:
+                        r['tags'] = sorted(set(r['tags']) | {'cte-shadows-qualified-table-of-default-namespace'})
                     fail('not-fetched/%s' % ','.join(r['tags']),
                          'table %s resolves to integration %r but no fetch step for %r contains it' % (
                              '.'.join(r['parts']), r['db'], r['db']),
@@ -351,6 +353,15 @@ def run(chk):
             for m in ('model', 'MODEL', 'model.3'):
                 stmts.append((c, 'SELECT * FROM %s.%s WHERE x = 1' % (q, m), 'select', ['model-select-cap']))
                 stmts.append((c, 'SELECT * FROM int1.t AS a JOIN %s.%s AS m' % (q, m), 'select', ['model-join-cap']))
+    # CTE names that collide with the last part of a qualified table; DELETE with qualified columns at top level
+    for c in (fixed[0], R.Cat([('n', 'int1'), ('n', 'int2')], None, None, 'int1'), R.Cat([('n', 'INT1'), ('n', 'int2')], None, None, 'int2')):
+        for q1, q2 in (('int1', 'int2'), ('INT1', 'Int2'), ('`int1`', 'INT2')):
+            stmts.append((c, 'WITH t AS (SELECT * FROM %s.t2) SELECT * FROM t JOIN %s.t AS u ON t.id = u.id' % (q2, q1), 'select', ['cte-name=table']))
+            stmts.append((c, 'WITH s2 AS (SELECT * FROM %s.s) SELECT * FROM %s.s2 AS u JOIN s2 ON s2.id = u.id' % (q1, q2), 'select', ['cte-name=table']))
+            stmts.append((c, 'WITH t AS (SELECT * FROM %s.t2) SELECT * FROM %s.t WHERE id IN (SELECT id FROM t)' % (q2, q1), 'select', ['cte-name=table']))
+            for q3 in (q1, q1.swapcase() if '`' not in q1 else 'Int1'):
+                stmts.append((c, 'DELETE FROM %s.t WHERE %s.t.x = 1' % (q1, q3), 'delete', ['delete-qualified']))
+                stmts.append((c, 'DELETE FROM %s.t WHERE %s.t.x = 1 AND (%s.t.y > 0 OR t.id IN (SELECT id FROM %s.t2))' % (q1, q3, q3, q2), 'delete', ['delete-qualified']))
     n_probe_fail = 0
     for c, sql, kind, feats in stmts:
         chk.count((c.key(), sql))
